@@ -53,7 +53,7 @@ CLAIMED.update({
                 "the factored minimum, non-negative), the scratch node is recycled exactly once. "
                 "The in-place rewrite used by reordering (forest::modifyReducedNodeInPlace) leaves the unique table under the old hash "
                 "before the storage goes and re-enters under the hash of the new content. BOUNDED stand-ins (labelled bounded, not counted "
-                "as proved): the packed-node codec on nodes of up to 3 entries (U-codecb) and the real mtmdd swapAdjacentVariables on a "
+                "as proved): the packed-node codec in both directions (makeNode, areDuplicates, getDownPtr, isSingletonNode, fillUnpacked in every view) on nodes of up to 3 entries (U-codecb, U-unpackb) and the real mtmdd swapAdjacentVariables on a "
                 "symbolic world of 2 (quick) / 3 (thorough) stored nodes (U-swapb). Partial (see note).",
         "note": COMMON_NOTE + " Not covered: relation swaps, chain builders, node-count bookkeeping across histories, "
                 "completeness of elimination (counting argument).",
